@@ -234,10 +234,12 @@ let sem_c03_gen ~(all : bool) (e : Sexp.t) : Sexp.t =
 
 (* ---------- sem_outline ---------- *)
 (* On an accepted outline: every definition (in acceptance order, reconstructed from the input
-   specification) must be  forall Xs (p(Xs) <-> F)  with Xs distinct, F closed over Xs, p not in
-   the taken predicates, not defined earlier, and F over taken predicates and earlier defined ones.
-   [strict] additionally requires that p occurs in no EARLIER LEMMA (the letter of C13; finding F12). *)
-let sem_outline_gen ~(strict : bool) (e : Sexp.t) : Sexp.t =
+   specification) must be  forall Xs (p(Xs) <-> F)  with Xs distinct, F closed over Xs, p occurring
+   nowhere in the task (the taken predicates) nor in any EARLIER outline entry - definition or lemma
+   (the letter of C13; the lemma part was finding F12, repaired in /repo, and is no longer excused) -
+   and F over earlier predicates (task, earlier definitions, earlier lemmas).
+   [sem_outline_all] is the same oracle (kept as a name: it was the strict variant while F12 was recorded). *)
+let sem_outline_gen (e : Sexp.t) : Sexp.t =
   match e with
   | L [ L [ spec; taken; ph ]; L (A "ok" :: _) ] ->
     let spec = specification spec and taken = list_of pred taken in
@@ -256,9 +258,9 @@ let sem_outline_gen ~(strict : bool) (e : Sexp.t) : Sexp.t =
               if not (distinct vs) then cex "quantified variables not distinct" a
               else if not (List.for_all (fun t -> gterm_to_var t <> None) ts) then cex "argument of the defined atom is not a variable" a
               else if List.mem pr taken then cex "defined predicate is not fresh (task or earlier definition)" a
+              else if List.mem pr earlier_lemma_preds then cex "defined predicate occurs in an earlier lemma (F12)" a
               else if not (List.for_all (fun v -> List.mem v vs) (free_variables rhs)) then cex "body not closed over the quantified variables" a
-              else if not (List.for_all (fun q -> List.mem q taken) (predicates rhs)) then cex "body mentions a predicate that is not earlier" a
-              else if strict && List.mem pr earlier_lemma_preds then cex "defined predicate occurs in an earlier lemma (F12)" a
+              else if not (List.for_all (fun q -> List.mem q taken || List.mem q earlier_lemma_preds) (predicates rhs)) then cex "body mentions a predicate that is not earlier" a
               else go (taken @ [ pr ]) earlier_lemma_preds rest
             | _ -> cex "accepted definition is not a universally quantified equivalence with an atom on the left" a)
          | RLemma | RInductiveLemma -> go taken (earlier_lemma_preds @ predicates a.an_formula) rest
@@ -545,8 +547,8 @@ let () =
   Ops.register "sem_c19_strong" sem_c19_strong;
   Ops.register "sem_c03" (sem_c03_gen ~all:false);
   Ops.register "sem_c03_all" (sem_c03_gen ~all:true);
-  Ops.register "sem_outline" (sem_outline_gen ~strict:false);
-  Ops.register "sem_outline_all" (sem_outline_gen ~strict:true);
+  Ops.register "sem_outline" sem_outline_gen;
+  Ops.register "sem_outline_all" sem_outline_gen;
   Ops.register "sem_c11" sem_c11;
   Ops.register "sem_c13_order" sem_c13_order;
   Ops.register "sem_c13_fresh" sem_c13_fresh;
